@@ -381,4 +381,57 @@ theorem updateBalances_sum {s s' : State} {hold : Denom → Option Nat} {ch : St
     apply outAt_of_not_mem_keys
     rw [r3]; exact AMap.get?_eq_none_iff.mp hn
 
+/-! ## `migrate` from ≤ 0.13.0, entry by entry -/
+
+/-- A successful `migrate` from a stored version ≤ 0.13.0 of a one-channel contract with distinct storage
+keys: each entry `{outstanding, total_sent}` of the channel becomes
+`{balance, total_sent + (balance − outstanding)}` where `balance ≥ outstanding` is the contract's real
+balance of the denomination; keys of other channels are untouched. -/
+theorem migrate_legacy_entry {s s' : State} {gas : Option Nat} {hold : Denom → Option Nat} {ch : String}
+    (hnd : AMap.NodupKeys s.chan) (hv : Version.le s.version MIGRATE_VERSION_3 = true) (hch : s.channels = [ch])
+    (h : migrate s gas hold = .ok s') :
+    (∀ d cs, s.chan.get? (ch, d) = some cs → ∃ bal, hold d = some bal ∧ cs.outstanding ≤ bal ∧
+        s'.chan.get? (ch, d) = some ⟨bal, cs.totalSent + (bal - cs.outstanding)⟩) ∧
+    (∀ k, (k ∉ AMap.keys s.chan ∨ k.1 ≠ ch) → s'.chan.get? k = s.chan.get? k) := by
+  obtain ⟨_, hb⟩ := migrate_books h
+  rcases hb with ⟨hv', _⟩ | ⟨_, s1, s2, e1, ec, hu, e⟩
+  · rw [hv] at hv'; cases hv'
+  · obtain ⟨r1, r2, _, _⟩ := updateBalances_full (ch := ch) (by rw [ec, hch]) (by rw [e1]; exact hnd) hu
+    rw [e1] at r1 r2
+    rw [e]
+    exact ⟨r1, r2⟩
+
+/-- `reduce_channel_balance` cannot fail for an amount up to the stored outstanding balance. -/
+theorem reduceBalance_ok_of_le {m : ChanMap} {c : String} {d : Denom} {cs : ChanState} {amt : Nat}
+    (hg : m.get? (c, d) = some cs) (hle : amt ≤ cs.outstanding) :
+    reduceBalance m c d amt = .ok (m.set (c, d) ⟨cs.outstanding - amt, cs.totalSent⟩) := by
+  simp [reduceBalance, hg, subU128, hle, bind, Except.bind, pure, Except.pure]
+
+/-- An incoming packet with well-formed fields, an amount up to the stored outstanding balance of its
+denomination on the receiving channel, and a payable token is accepted by `do_ibc_packet_receive`. -/
+theorem doReceive_ok_of_entry {s : State} {p : PacketIn} {tv : Bool} {d : Denom} {cs : ChanState} {amt : Nat}
+    {gas : Option Nat} (hg : s.chan.get? (p.destChan, d) = some cs) (hamt : p.amount = some amt)
+    (hvch : p.voucher = some (p.srcPort, p.srcChan, d)) (hle : amt ≤ cs.outstanding)
+    (hgas : checkGasLimit s d tv = .ok gas) :
+    doReceive s p tv =
+      .ok ({ s with chan := s.chan.set (p.destChan, d) ⟨cs.outstanding - amt, cs.totalSent⟩,
+                    replyArgs := some ⟨p.destChan, d, amt⟩ }, ⟨p.receiver, amt, d, gas, RECEIVE_ID⟩) := by
+  unfold doReceive
+  simp [hamt, hvch, hgas, reduceBalance_ok_of_le hg hle, check, bind, Except.bind, pure, Except.pure]
+
+/-- A failed send (error acknowledgement / timeout) of an amount up to the stored outstanding balance is
+accepted by `on_packet_failure` when the token is payable. -/
+theorem onPacketFailure_ok_of_entry {s : State} {chan : String} {pk : Packet} {tv : Bool} {cs : ChanState}
+    {gas : Option Nat} (hg : s.chan.get? (chan, pk.denom) = some cs) (hle : pk.amount ≤ cs.outstanding)
+    (hgas : checkGasLimit s pk.denom tv = .ok gas) :
+    onPacketFailure s chan (some pk) tv =
+      .ok ({ s with chan := s.chan.set (chan, pk.denom) ⟨cs.outstanding - pk.amount, cs.totalSent⟩ },
+           ⟨pk.sender, pk.amount, pk.denom, gas, ACK_FAILURE_ID⟩) := by
+  unfold onPacketFailure
+  simp [hgas, reduceBalance_ok_of_le hg hle, bind, Except.bind, pure, Except.pure]
+
+theorem holdings_eq_of_frame {w w' : World} (e2 : w'.bank = w.bank) (e3 : w'.tok = w.tok) (e4 : w'.self = w.self)
+    (e5 : w'.tokens = w.tokens) (d : Denom) : w'.holdings d = w.holdings d := by
+  cases d <;> simp [World.holdings, World.bankBal, World.tokBal, e2, e3, e4, e5]
+
 end CwPlus.Ics20
